@@ -92,8 +92,24 @@ fn decode_inputs(c: &Cfg, o: &Opts, rng: &mut Rng) -> Vec<[u16; 3]> {
     px
 }
 
+/// per-plane paddings that rotate with the image: every third image is tightly packed, the others get planes of
+/// different strides and origins (the decode must not care)
+fn pads_for(k: usize) -> [(usize, usize); 3] {
+    match k % 3 {
+        0 => [(0, 0); 3],
+        1 => [(0, 0), (17, 1), (0, 2)],
+        _ => [(3, 1), (0, 0), (33, 0)],
+    }
+}
+
 fn emit_dec<T: Pixel>(sh: &mut Shards, c: &Cfg, st: u8, px: &[[u16; 3]], w: usize, h: usize, ev: &str) {
-    let yuv: Yuv<T> = match yuv444::<T>(px, w, h, c) {
+    let k = px.len() + w + usize::from(px[0][0]);
+    let built = if k % 4 == 3 {
+        Yuv::new(crate::frames::frame_packed_luma::<T>(px, w, h, c.ssx, c.ssy, pads_for(k)), c.yuv_config())
+    } else {
+        crate::frames::yuv444_padded::<T>(px, w, h, c, pads_for(k))
+    };
+    let yuv: Yuv<T> = match built {
         Ok(y) => y,
         Err(e) => {
             sh.emit(&format!("\"ev\":\"{ev}\",\"cfg\":{},\"st\":{st},\"w\":{w},\"h\":{h},\"res\":\"ctor:{}\"", c.json(), crate::frames::err_name_yuv(e)));
@@ -131,8 +147,10 @@ pub fn gen_c01(sh: &mut Shards, o: &Opts) -> serde_json::Value {
         let px = decode_inputs(&c, o, &mut rng);
         evals += px.len() as u64;
         cfgs += 1;
-        for (at, w, h) in cut_images(px.len(), ci) {
+        for (k, (at, w, h)) in cut_images(px.len(), ci).into_iter().enumerate() {
             let img = &px[at..at + w * h];
+            // the decode must ignore transfer and primaries: rotate them over every supported value
+            let c = Cfg { tc: crate::util::TC_SUP[(k + ci) % 14], cp: crate::util::CP_SUP[(k / 14 + ci) % 11], ..c };
             if st == 8 {
                 emit_dec::<u8>(sh, &c, st, img, w, h, "dec");
             } else {
@@ -140,10 +158,33 @@ pub fn gen_c01(sh: &mut Shards, o: &Opts) -> serde_json::Value {
             }
         }
     }
+    // call-order histories on one thread: a decode with config A (any matrix code, incl. the primaries-derived ones), then a
+    // decode with a standard config B; B is judged.  State surviving a call (memoised matrices, tables) shows here.
+    {
+        let mut rng = Rng::new(o.seed, 0x0101_c000);
+        for &ma in &crate::util::MC_ALL {
+            for &pa in &[1u8, 5, 9] {
+                for &mb in &MC_STD {
+                    for full in [false, true] {
+                        let n = if (ma + mb) % 2 == 0 { 8u8 } else { 10 };
+                        let a = Cfg { mc: ma, tc: 1, cp: pa, full: !full, n, ssx: 0, ssy: 0 };
+                        let b = Cfg { mc: mb, tc: 13, cp: [1u8, 9, 5, 6][(ma as usize + mb as usize) % 4], full, n, ssx: 0, ssy: 0 };
+                        let maxc = (1u64 << n) - 1;
+                        let px: Vec<[u16; 3]> = (0..7).map(|_| [rng.below(maxc + 1) as u16, rng.below(maxc + 1) as u16, rng.below(maxc + 1) as u16]).collect();
+                        if let Ok(ya) = yuv444::<u16>(&px, 7, 1, &a) {
+                            let _ = crate::util::guard(|| Rgb::try_from(&ya).map(|r| r.data().len()));
+                        }
+                        emit_dec::<u16>(sh, &b, 16, &px, 7, 1, "dec");
+                        evals += 7;
+                    }
+                }
+            }
+        }
+    }
     // large images (position-dependent code paths): converted whole, probed at chunk boundaries and random positions
     for (k, (c, st)) in all_matrix_cfgs().into_iter().enumerate().filter(|(k, _)| k % 23 == 0) {
         let mut rng = Rng::new(o.seed, 0x0101_b160 + k as u64);
-        let (w, h) = crate::util::BIG;
+        let (w, h) = crate::util::big(k / 23);
         let maxc = (1u64 << c.n) - 1;
         let px: Vec<[u16; 3]> = (0..w * h).map(|_| [rng.below(maxc + 1) as u16, rng.below(maxc + 1) as u16, rng.below(maxc + 1) as u16]).collect();
         let idx = crate::util::probe_indices(w * h, w, &mut rng);
@@ -300,18 +341,42 @@ pub fn gen_c02(sh: &mut Shards, o: &Opts) -> serde_json::Value {
         let px = encode_inputs(&c, o, &mut rng);
         evals += px.len() as u64;
         cfgs += 1;
-        for (at, w, h) in cut_images(px.len(), ci + 3) {
+        for (k, (at, w, h)) in cut_images(px.len(), ci + 3).into_iter().enumerate() {
             let img = &px[at..at + w * h];
+            let (t, p) = (crate::util::TC_SUP[(k + ci) % 14], crate::util::CP_SUP[(k / 14 + ci) % 11]);
+            let c = Cfg { tc: t, cp: p, ..c };
             if st == 8 {
-                emit_enc::<u8>(sh, &c, st, img, w, h, "enc", 13, 1);
+                emit_enc::<u8>(sh, &c, st, img, w, h, "enc", t, p);
             } else {
-                emit_enc::<u16>(sh, &c, st, img, w, h, "enc", 13, 1);
+                emit_enc::<u16>(sh, &c, st, img, w, h, "enc", t, p);
+            }
+        }
+    }
+    // call-order histories (see gen_c01): an encode with config A, then an encode with a standard config B; B is judged
+    {
+        let mut rng = Rng::new(o.seed, 0x0202_c000);
+        for &ma in &crate::util::MC_ALL {
+            for &pa in &[1u8, 5, 9] {
+                for &mb in &MC_STD {
+                    for full in [false, true] {
+                        let n = if (ma + mb) % 2 == 0 { 8u8 } else { 10 };
+                        let a = Cfg { mc: ma, tc: 1, cp: pa, full: !full, n, ssx: 0, ssy: 0 };
+                        let tb = [13u8, 16, 1, 8][(ma as usize + mb as usize) % 4];
+                        let pb = [1u8, 9, 5, 6][(ma as usize + mb as usize) % 4];
+                        let b = Cfg { mc: mb, tc: tb, cp: pb, full, n, ssx: 0, ssy: 0 };
+                        let px: Vec<[f32; 3]> = (0..7).map(|_| [rng.f32_in(-0.5, 1.5), rng.f32_in(-0.5, 1.5), rng.f32_in(-0.5, 1.5)]).collect();
+                        let rgb = Rgb::new(px.clone(), 7, 1, tc(1), cp(pa)).expect("rgb ctor");
+                        let _ = crate::util::guard(|| Yuv::<u16>::try_from((&rgb, a.yuv_config())).map(|y| y.width()));
+                        emit_enc::<u16>(sh, &b, 16, &px, 7, 1, "enc", tb, pb);
+                        evals += 7;
+                    }
+                }
             }
         }
     }
     for (k, (c, st)) in all_matrix_cfgs().into_iter().enumerate().filter(|(k, _)| k % 23 == 5) {
         let mut rng = Rng::new(o.seed, 0x0202_b160 + k as u64);
-        let (w, h) = crate::util::BIG;
+        let (w, h) = crate::util::big(k / 23);
         let px: Vec<[f32; 3]> = (0..w * h).map(|_| [rng.f32_in(-0.5, 1.5), rng.f32_in(-0.5, 1.5), rng.f32_in(-0.5, 1.5)]).collect();
         let idx = crate::util::probe_indices(w * h, w, &mut rng);
         let sel: Vec<[f32; 3]> = idx.iter().map(|&i| px[i]).collect();
@@ -352,8 +417,13 @@ pub fn gen_c02(sh: &mut Shards, o: &Opts) -> serde_json::Value {
 // C08: decode then encode with the same config; lossless projection = set of distinct (plane,in,out)
 
 fn roundtrip_collect<T: Pixel>(c: &Cfg, px: &[[u16; 3]], tab: &mut BTreeSet<(u8, u16, u16)>, bad: &mut Vec<String>) {
-    let w = px.len();
-    let yuv: Yuv<T> = yuv444::<T>(px, w, 1, c).expect("ctor");
+    // a 2-D image (rows of 251 pixels; the tail is dropped into a second, single-row call by the caller's batching)
+    let (w, h) = if px.len() >= 502 { (251usize, px.len() / 251) } else { (px.len(), 1) };
+    if w * h < px.len() {
+        roundtrip_collect::<T>(c, &px[w * h..], tab, bad);
+    }
+    let px = &px[..w * h];
+    let yuv: Yuv<T> = yuv444::<T>(px, w, h, c).expect("ctor");
     let rgb = match crate::util::guard(|| Rgb::try_from(&yuv)) {
         Ok(Ok(r)) => r,
         Ok(Err(e)) => {
@@ -376,7 +446,7 @@ fn roundtrip_collect<T: Pixel>(c: &Cfg, px: &[[u16; 3]], tab: &mut BTreeSet<(u8,
             return;
         }
     };
-    if back.width() != w || back.height() != 1 || back.config() != yuv.config() {
+    if back.width() != w || back.height() != h || back.config() != yuv.config() {
         bad.push("shape".to_string());
         return;
     }
@@ -397,7 +467,7 @@ pub fn gen_c08(sh: &mut Shards, o: &Opts) -> serde_json::Value {
         let total = 1u32 << n;
         let mut tab = BTreeSet::new();
         let mut bad = Vec::new();
-        let mut batch: Vec<[u16; 3]> = Vec::with_capacity(1 << 16);
+        let mut batch: Vec<[u16; 3]> = Vec::with_capacity(301_200);
         let mut flush = |batch: &mut Vec<[u16; 3]>, tab: &mut BTreeSet<(u8, u16, u16)>, bad: &mut Vec<String>| {
             if batch.is_empty() {
                 return;
@@ -411,7 +481,7 @@ pub fn gen_c08(sh: &mut Shards, o: &Opts) -> serde_json::Value {
         };
         let mut push = |p: [u16; 3], batch: &mut Vec<[u16; 3]>, tab: &mut BTreeSet<(u8, u16, u16)>, bad: &mut Vec<String>| {
             batch.push(p);
-            if batch.len() >= 65521 {
+            if batch.len() >= 301_200 {
                 flush(batch, tab, bad);
             }
         };
